@@ -63,10 +63,12 @@ pub(crate) fn leak(v: Vec<u8>) -> &'static [u8] {
     Box::leak(v.into_boxed_slice())
 }
 
-/// Cut K8: arbitrary bytes instead of the system RNG.
+/// Cut K8: arbitrary bytes instead of the system RNG.  Only the first 16 bytes of a longer buffer are made arbitrary
+/// (the rest keeps its zero fill): the instances with large buffers examine the length only, and a loop over 32 KiB
+/// cannot be unrolled.
 pub(crate) fn fill_any(data: &mut [u8]) {
     let mut i = 0;
-    while i < data.len() {
+    while i < data.len() && i < 16 {
         data[i] = kani::any();
         i += 1;
     }
